@@ -43,7 +43,8 @@ PROPS = {
         nontrivial=both(has(r"^t h "), either(has(r"^panic "), has(r"^(remove|despawn|rmc)"))),
     ),
     "C02": dict(
-        profiles=[("storage", dict(quick=80, thorough=1500), {}), ("general", dict(quick=40, thorough=500), dict(comps=(0, 1, 2, 3, 4, 5)))],
+        profiles=[("storage", dict(quick=80, thorough=1500), {}), ("general", dict(quick=40, thorough=500), dict(comps=(0, 1, 2, 3, 4, 5))),
+                  ("graphs", dict(quick=80, thorough=1500), dict(take_p=0.3))],
         channels=["store"],
         rule="history moves an entity between archetypes and removes a row that is not the last one (>= 3 inserts, >= 1 remove/despawn)",
         nontrivial=both(count_ops(r"^insert", 3), count_ops(r"^(remove|despawn)", 1)),
@@ -73,7 +74,8 @@ PROPS = {
         nontrivial=both(has(r"^t  it\d+ \[.*;.*\]"), has(r"Err\((QueryDoesNotMatch|NoSuchEntity)\)")),
     ),
     "C07": dict(
-        profiles=[("graphs", dict(quick=150, thorough=4000), {}), ("targeted", dict(quick=60, thorough=1500), {})],
+        profiles=[("priorities", dict(quick=250, thorough=8000), {}), ("graphs", dict(quick=100, thorough=3000), {}),
+                  ("targeted", dict(quick=60, thorough=1500), {})],
         channels=["trace"],
         rule="an event is delivered to >= 2 handlers of different priority or after a handler removal",
         nontrivial=either(has(r"prio=h"), has(r"^rmh")),
@@ -91,13 +93,14 @@ PROPS = {
         nontrivial=has(r"^t h \S+ (InsK|RemK|Despawn|Spawn)"),
     ),
     "C10": dict(
-        profiles=[("queries", dict(quick=80, thorough=2500), {}), ("general", dict(quick=40, thorough=800), {})],
+        profiles=[("queries", dict(quick=80, thorough=2500), {}), ("general", dict(quick=40, thorough=800), {}),
+                  ("cascade", dict(quick=80, thorough=2000), {})],
         channels=["trace"],
         rule="a fetcher iterates after structural changes that happened since its handler was added",
         nontrivial=both(has(r"^t  it\d+"), count_ops(r"^(despawn|remove|insert)", 4)),
     ),
     "C11": dict(
-        profiles=[("graphs", dict(quick=200, thorough=6000), {})],
+        profiles=[("graphs", dict(quick=200, thorough=6000), {}), ("storage", dict(quick=40, thorough=600), {})],
         channels=["evdrops", "cdrops"],
         rule="events are destroyed on at least two different paths (completion, consumed, dead target)",
         nontrivial=both(has(r"^ed \d"), either(has(r"^t  took"), has(r"^t h .*@(null|\?)"))),
@@ -121,7 +124,8 @@ PROPS = {
         nontrivial=both(has(r"^rmc"), has(r"^ret some")),
     ),
     "C15": dict(
-        profiles=[("cascade", dict(quick=150, thorough=4000), {}), ("graphs", dict(quick=50, thorough=1000), {})],
+        profiles=[("cascade", dict(quick=150, thorough=4000), {}), ("graphs", dict(quick=50, thorough=1000), {}),
+                  ("priorities", dict(quick=100, thorough=3000), {})],
         channels=["trace", "reg", "ret"],
         rule="a handler or an event type with users is removed and events are delivered afterwards",
         nontrivial=both(has(r"^(rmh|rmev)"), has(r"^ret some")),
